@@ -24,6 +24,28 @@ use strum::IntoStaticStr;
 
 use embedded_io::Write;
 
+#[cfg(quartiq_miniconf_verif)]
+extern crate std;
+
+/// Verification hooks (compiled only with `--cfg quartiq_miniconf_verif`): a thread-local
+/// trace of the environment observations made by `update()`.
+#[cfg(quartiq_miniconf_verif)]
+#[doc(hidden)]
+pub mod verif {
+    use std::{cell::RefCell, string::String, vec::Vec};
+    std::thread_local! {
+        static TRACE: RefCell<Vec<String>> = const { RefCell::new(Vec::new()) };
+    }
+    /// Record an event.
+    pub fn ev(s: String) {
+        TRACE.with(|t| t.borrow_mut().push(s));
+    }
+    /// Take and clear the recorded events.
+    pub fn take() -> Vec<String> {
+        TRACE.with(|t| core::mem::take(&mut *t.borrow_mut()))
+    }
+}
+
 // The maximum topic length of any topic (prefix + "/settings" + miniconf path).
 const MAX_TOPIC_LENGTH: usize = 128;
 
@@ -291,11 +313,39 @@ where
         self.state.process_event(sm::Events::Reset).unwrap();
     }
 
+    /// Verification hook: protocol state name, whether a response topic is pending,
+    /// current and root depth of the pending iterator.
+    #[cfg(quartiq_miniconf_verif)]
+    #[doc(hidden)]
+    pub fn verif_state(&self) -> (&'static str, bool, usize, usize) {
+        let name = match self.state.state() {
+            sm::States::Connect => "connect",
+            sm::States::Alive => "alive",
+            sm::States::Subscribe => "subscribe",
+            sm::States::Wait => "wait",
+            sm::States::Init => "init",
+            sm::States::Multipart => "multipart",
+            sm::States::Single => "single",
+        };
+        (
+            name,
+            self.pending.response_topic.is_some(),
+            self.pending.iter.current_depth(),
+            self.pending.iter.root_depth(),
+        )
+    }
+
     /// Update the MQTT interface and service the network.
     ///
     /// # Returns
     /// True if the settings changed. False otherwise.
     pub fn update(&mut self, settings: &mut Settings) -> Result<bool, Error<Stack::Error>> {
+        #[cfg(quartiq_miniconf_verif)]
+        verif::ev(std::format!(
+            "upd:{}:{}",
+            self.verif_state().0,
+            self.mqtt.client().is_connected() as u8
+        ));
         if !self.mqtt.client().is_connected() {
             // Note(unwrap): It's always safe to reset.
             self.state.process_event(sm::Events::Reset).unwrap();
@@ -375,6 +425,8 @@ where
 
     fn iter_list(&mut self) {
         while self.mqtt.client().can_publish(QoS::AtLeastOnce) {
+            #[cfg(quartiq_miniconf_verif)]
+            verif::ev(std::string::String::from("slot"));
             let (code, path) = if let Some(path) = self.pending.iter.next() {
                 let (path, node) = path.unwrap(); // Note(unwrap) checked capacity
                 debug_assert!(node.is_leaf()); // Note(assert): Iterator depth unlimited
@@ -406,6 +458,8 @@ where
 
     fn iter_dump(&mut self, settings: &Settings) {
         while self.mqtt.client().can_publish(QoS::AtLeastOnce) {
+            #[cfg(quartiq_miniconf_verif)]
+            verif::ev(std::string::String::from("slot"));
             let Some(path) = self.pending.iter.next() else {
                 self.state.process_event(sm::Events::Complete).unwrap();
                 break;
@@ -489,6 +543,13 @@ where
             ..
         } = self;
         mqtt.poll(|client, topic, payload, properties| {
+            #[cfg(quartiq_miniconf_verif)]
+            verif::ev(std::format!(
+                "msg:{}:{}:{}",
+                topic.len(),
+                payload.len(),
+                client.can_publish(QoS::AtLeastOnce) as u8
+            ));
             let Some(path) = topic
                 .strip_prefix(*prefix)
                 .and_then(|p| p.strip_prefix("/settings"))
@@ -563,6 +624,8 @@ where
         .map(Option::unwrap_or_default)
         .or_else(|err| match err {
             minimq::Error::SessionReset => {
+                #[cfg(quartiq_miniconf_verif)]
+                verif::ev(std::string::String::from("sessreset"));
                 warn!("Session reset");
                 self.state.process_event(sm::Events::Reset).unwrap();
                 Ok(State::Unchanged)
